@@ -42,6 +42,7 @@ def setup(ctx):
     ctx.require("monitor", "decisions_object", 2000)
     ctx.require("monitor", "decisions_wired", 1000)
     ctx.require("monitor", "wired_through_serve_command", 40)
+    ctx.require("monitor", "wired_next_to_certificate_rules", 8)
     ctx.require("monitor", "refusals_seen", 200)
     ctx.require("monitor", "admissions_seen", 200)
     ctx.require("monitor", "live_decisions", 3)
@@ -288,7 +289,7 @@ def run_effect(ctx, cfg, peers):
         ctx.case(("effect", kind, want, status, n_h + n_u), True, sample=wit)
 
 
-def write_toml(path, cfg, docroot):
+def write_toml(path, cfg, docroot, with_cert_rule=False):
     import tomli_w
 
     ac = {"default_allow": cfg["default_allow"]}
@@ -299,11 +300,15 @@ def write_toml(path, cfg, docroot):
     if cfg["deny"] is not None:
         ac["deny_list"] = cfg["deny"]
     data = {"server": {"host": "127.0.0.1", "port": 1965, "document_root": docroot}, "access_control": ac, "rate_limit": {"enabled": False}}
+    if with_cert_rule:
+        # another feature of the same server: a certificate rule for an area the test requests never touch
+        data["certificate_auth"] = {"paths": [{"prefix": "/members/", "require_cert": True}]}
+        data["rate_limit"] = {"enabled": True, "capacity": 100000, "refill_rate": 1000.0}
     with open(path, "wb") as f:
         tomli_w.dump(data, f)
 
 
-def run_wired(ctx, cfg, peers, base, via="toml"):
+def run_wired(ctx, cfg, peers, base, via="toml", with_cert_rule=False):
     """TOML -> ServerConfig -> (as __main__._serve does) start_server -> protocol; with via="serve" the command
     line `nauyaca serve --config file` itself does all of that (create_server stubbed)."""
     from pathlib import Path
@@ -314,7 +319,9 @@ def run_wired(ctx, cfg, peers, base, via="toml"):
 
     allow, deny, malformed, hostbits = model_lists(cfg)
     path = os.path.join(base, "conf.toml")
-    write_toml(path, cfg, os.path.join(base, "doc"))
+    write_toml(path, cfg, os.path.join(base, "doc"), with_cert_rule)
+    if with_cert_rule:
+        ctx.count("monitor", "wired_next_to_certificate_rules")
     try:
         if via == "serve":
             from vf.gen import certs
@@ -350,11 +357,24 @@ def run_wired(ctx, cfg, peers, base, via="toml"):
     for peer, pos in peers:
         loop = new_loop()
         try:
-            sim = ServerSim(factory, peername=(peer, 40000), loop=loop)
-            sim.start()
-            sim.feed(b"gemini://localhost/index.gmi\r\n")
-            sim.finish()
-            stream = bytes(sim.transport.written)
+            if cap.get("ssl") is None:
+                # the PyOpenSSL backend terminates TLS inside the protocol factory: talk TLS to it
+                from vf import tlsbench
+
+                bench = tlsbench.Sandwich(loop, None, captured=cap, peername=(peer, 40000) if ":" not in peer else (peer, 40000, 0, 0))
+                if not bench.handshake():
+                    ctx.inconclusive_because(f"wired TLS handshake failed: {bench.error}")
+                    continue
+                bench.client_send(b"gemini://localhost/index.gmi\r\n")
+                loop.run_until(loop.time() + 5.0)
+                bench.drain()
+                stream = bytes(bench.client_plain)
+            else:
+                sim = ServerSim(factory, peername=(peer, 40000), loop=loop)
+                sim.start()
+                sim.feed(b"gemini://localhost/index.gmi\r\n")
+                sim.finish()
+                stream = bytes(sim.transport.written)
         finally:
             close_loop(loop)
         status = int(stream[:2]) if stream[:2].isdigit() else None
@@ -426,6 +446,8 @@ def run(ctx):
                 run_wired(ctx, cfg, peers[:: 2 if ctx.quick() else 1], base, via="serve" if (i // 3) % 2 or i >= n else "toml")
                 if i >= n:
                     run_wired(ctx, cfg, peers[:: 2 if ctx.quick() else 1], base)
+                if i % 12 == 0 or i >= n:
+                    run_wired(ctx, cfg, peers[:: 4 if ctx.quick() else 1], base, via="serve" if i % 24 == 0 else "toml", with_cert_rule=True)
             if i % 5 == 1 or i >= n:
                 run_effect(ctx, cfg, peers)
             ctx.count("shape", shape(cfg))
